@@ -27,6 +27,10 @@ func runC05(c *Ctx) {
 	c.armPoolError("B6-pool-reports-the-error", func(m string) bool {
 		return strings.Contains(m, "Mix") || strings.Contains(m, "NSort") || strings.Contains(m, "NConcurrent")
 	}, 10)
+	// ... and hand their own arguments to the engine method of the same name, each in its place
+	c.armPoolArgs("B7-pool-passes-its-arguments", func(m string) bool {
+		return strings.Contains(m, "Mix") || strings.Contains(m, "NSort") || strings.Contains(m, "NConcurrent")
+	}, 10)
 
 	kind := map[string]string{}
 	var all []string
